@@ -81,6 +81,16 @@ def layout_found(chk, cls, a, pc, goal, fallback):
                 for n2 in names[i + 1:]:
                     if res is None and np.shares_memory(getattr(obj, n1), getattr(obj, n2)):
                         res = {"key": "%s(%s, shared_memory=True)" % (cls, cfg), "observed": "%s and %s overlap in the shared block" % (n1, n2), "expected": "disjoint views", "how": "solver counterexample of the layout obligation, built on the real class"}
+            if res is None:
+                try:
+                    twin = getattr(mod, cls)(**cfg)
+                    for n1 in names:
+                        if getattr(obj, n1).shape != getattr(twin, n1).shape:
+                            res = {"key": "%s(%s, shared_memory=True)" % (cls, cfg), "observed": "%s has shape %s" % (n1, getattr(obj, n1).shape), "expected": "%s as without shared memory" % (getattr(twin, n1).shape,), "how": "solver counterexample of the layout obligation, built on the real class"}
+                            break
+                    del twin
+                except Exception:
+                    pass
             if res is None and "n_added_records" in names and obj.n_added_records.size != 2:
                 res = {"key": "%s(%s, shared_memory=True)" % (cls, cfg), "observed": "n_added_records has %d elements" % obj.n_added_records.size, "expected": "2", "how": "solver counterexample of the layout obligation, built on the real class"}
             del obj
@@ -132,6 +142,19 @@ def _owner_layout_path(chk, ex, cls, name, a, oref, ost, found):
     if "n_added_records" in ARRAYS[cls]:
         g_ = of["n_added_records"].shape[0] == 2
         chk.prove("%s:owner:n_added_records-has-2-elements" % name, pc, g_, tag="G", found=layout_found(chk, cls, a, pc, g_, found))
+    # the shared tables have the shapes of the in-memory ones (same constructor arguments): the kernels
+    # walk whole arrays (e.g. the harmonic sum of all registers), so a larger view changes results
+    pb, plains, _ = _glue.good_objects(ex, cls, "o", shared=False, st=ost.fork())
+    if plains:
+        pf = plains[0][1].objs[plains[0][0].oid]["fields"]
+        for fld in ARRAYS[cls]:
+            x, y = of.get(fld), pf.get(fld)
+            if isinstance(x, Arr) and isinstance(y, Arr) and len(x.shape) == len(y.shape):
+                for i, (u, v) in enumerate(zip(x.shape, y.shape)):
+                    g_ = u == v
+                    chk.prove("%s:owner:%s:shape%d-as-in-memory" % (name, fld, i), plains[0][1].pc, g_, tag="G", found=layout_found(chk, cls, a, plains[0][1].pc, g_, found))
+            else:
+                _wrappers.row(chk, "%s:owner:%s:rank-as-in-memory" % (name, fld), False, None, found)
     return oref, ost, of, shm, size
 
 
